@@ -58,7 +58,8 @@ inductive Expr where
   | cont (k : CKind) (items : List Expr)
   | dict (ks vs : List Expr)
   -- applications
-  | call (t : String) (args : List Expr) (kwn : List String) (kwv : List Expr)   -- TaskExpression
+  /-- TaskExpression; `ovn`/`ovv`: the `_context_override` option (`task.update_context(...)`), concrete values -/
+  | call (t : String) (args : List Expr) (kwn : List String) (kwv : List Expr) (ovn : List String) (ovv : List Expr)
   | op (name : String) (args : List Expr)                                        -- SimpleExpression
   -- scheduler tasks (SchedulerExpression), raw arguments
   | cond (exprs : List Expr)
@@ -70,6 +71,7 @@ inductive Expr where
   | fork (e : Expr)
   | join (th : Expr)
   | subrun (e : Expr) (newExec : Bool)
+  | getCtx (key : String) (dflt : Expr)   -- redun.get_context(var_path, default), flat keys
   -- internal: `wait_promises` — evaluate and reify the outcome as `(True, v)` / `(False, error)`
   | settle (e : Expr)
   deriving Repr, Inhabited, BEq
@@ -105,6 +107,27 @@ structure TaskDef where
   /-- `task.func(*args, **kwargs)` on evaluated arguments: returned expression, raised error, or not modelled -/
   body : List Expr → List String → List Expr → Out
 
+/-- A job's context, as a lookup function on (flat) variable names. -/
+abbrev Ctx := String → Option Expr
+
+def Ctx.empty : Ctx := fun _ => Option.none
+
+def kvLookup : List String → List Expr → String → Option Expr
+  | k :: ks, v :: vs, key => if k == key then some v else kvLookup ks vs key
+  | _, _, _ => Option.none
+
+/-- `merge_dicts([parent_context, context_override])` on flat keys: the override wins -/
+def Ctx.override (c : Ctx) (ovn : List String) (ovv : List Expr) : Ctx :=
+  fun k => match kvLookup ovn ovv k with
+    | some v => some v
+    | Option.none => c k
+
+/-- `merge_dicts([config_context, run_context])`: what `Scheduler.run(context=...)` starts an execution with -/
+def Ctx.over (base top : Ctx) : Ctx :=
+  fun k => match top k with
+    | some v => some v
+    | Option.none => base k
+
 structure Lib where
   task : String → Option TaskDef
   /-- `issubclass(c, d)` on exception class names -/
@@ -113,6 +136,8 @@ structure Lib where
   pyfunc : String → List Expr → List String → List Expr → Out
   /-- field names of a namedtuple / dataclass type -/
   fields : String → List String
+  /-- the context of the scheduler configuration (`[scheduler] context`), which `subrun` forwards with the config -/
+  config : Ctx := Ctx.empty
 
 /-- `get_arg_defaults(task, args, kwargs)`: defaults of the parameters not given positionally or by keyword. -/
 def argDefaultsAux (nargs : Nat) (kwn : List String) : Nat → List Param → List (String × Expr)
@@ -207,10 +232,10 @@ def kwMerge (n1 : List String) (v1 : List Expr) (n2 : List String) (v2 : List Ex
 /-- `f(*args, **kwargs)` for a concrete `f` (Task.__call__, PartialTask.__call__, python functions). -/
 def applyCallable (lib : Lib) (f : Expr) (args : List Expr) (kwn : List String) (kwv : List Expr) : Out :=
   match f with
-  | .taskv t => .ok (.call t args kwn kwv)
+  | .taskv t => .ok (.call t args kwn kwv [] [])
   | .partialv t pargs pkwn pkwv =>
     let kw := kwMerge pkwn pkwv kwn kwv
-    .ok (.call t (pargs ++ args) (kw.map Prod.fst) (kw.map Prod.snd))
+    .ok (.call t (pargs ++ args) (kw.map Prod.fst) (kw.map Prod.snd) [] [])
   | .pyfunc name => lib.pyfunc name args kwn kwv
   | v => match typeName v with
     | some tn => .err ⟨"TypeError", "'" ++ tn ++ "' object is not callable"⟩
@@ -567,228 +592,254 @@ def settleOut : Out → Out
   | .err x => .ok (.cont .tuple [.bool false, .errv x])
   | .unk => .unk
 
+/-- two groups evaluated jointly (`Promise.all([args_promise, default_kwargs_promise])`) -/
+def bind2 (xs ys : Outs) (k : List Expr → List Expr → Outs) : Outs :=
+  bindL (consJoin xs (consJoin ys [.ok (L [])])) fun
+    | [.cont .list a, .cont .list d] => k a d
+    | _ => [.unk]
+
 /-- One layer of evaluation with the recursive calls abstracted (`rec` = evaluation with less fuel). -/
-def step (lib : Lib) (rec : Expr → Outs) (e : Expr) : Outs :=
+def step (lib : Lib) (recC : Ctx → Expr → Outs) (c : Ctx) (e : Expr) : Outs :=
   match e with
   | .none | .bool _ | .int _ | .str _ | .errv _ | .cls _ | .pyfunc _ | .taskv _
   | .partialv _ _ _ _ | .threadv _ => [.ok e]
   | .vexpr v => if isValue v then [.ok v] else [.unk]
-  | .cont .list es => evalList rec es
-  | .cont k es => bindL (evalList rec es) fun vs => if contOk k vs then [.ok (.cont k vs)] else [.unk]
+  | .cont .list es => evalList (recC c) es
+  | .cont k es => bindL (evalList (recC c) es) fun vs => if contOk k vs then [.ok (.cont k vs)] else [.unk]
   | .dict ks vs =>
-    bindL (evalList rec (ks ++ vs)) fun all =>
+    bindL (evalList (recC c) (ks ++ vs)) fun all =>
       if keysOk (all.take ks.length) then [.ok (.dict (all.take ks.length) (all.drop ks.length))] else [.unk]
-  | .call t args kwn kwv =>
+  | .call t args kwn kwv ovn ovv =>
     match lib.task t with
     | Option.none => [.unk]
     | some td =>
+      -- arguments under the caller's context; unspecified defaults and the body's result under the job's own context
+      let c' := c.override ovn ovv
       let ds := argDefaults td.params args.length kwn
-      bindL (evalList rec (args ++ kwv ++ ds.map Prod.snd)) fun all =>
-        thenEval rec (td.body (all.take args.length) (ds.map Prod.fst ++ kwn)
-          (all.drop (args.length + kwv.length) ++ (all.drop args.length).take kwv.length))
-  | .op name args => bindL (evalList rec args) fun vs => thenEval rec (applyOp lib name vs)
-  | .cond exprs => condGo rec exprs
-  | .seq exprs => seqGo rec exprs
+      bind2 (evalList (recC c) (args ++ kwv)) (evalList (recC c') (ds.map Prod.snd)) fun akv dvs =>
+        thenEval (recC c') (td.body (akv.take args.length) (ds.map Prod.fst ++ kwn) (dvs ++ akv.drop args.length))
+  | .op name args => bindL (evalList (recC c) args) fun vs => thenEval (recC c) (applyOp lib name vs)
+  | .cond exprs => condGo (recC c) exprs
+  | .seq exprs => seqGo (recC c) exprs
   | .catch e clss recs =>
-    (rec e).flatMap fun
+    ((recC c) e).flatMap fun
       | .ok v => [.ok v]
       | .unk => [.unk]
       | .err x =>
         match firstMatch lib x clss recs with
         | .miss => [.err x]
         | .bad => [.unk]
-        | .hit r => thenEval rec (applyCallable lib r [.vexpr (.errv x)] [] [])
+        | .hit r => thenEval (recC c) (applyCallable lib r [.vexpr (.errv x)] [] [])
   | .catchAll exprs cls recover =>
     match termsOf exprs with
     | Option.none => [.unk]
     | some (shape, items) =>
-      bindL (evalList rec (items.map .settle)) fun outs =>
+      bindL (evalList (recC c) (items.map .settle)) fun outs =>
         match unsettle outs with
         | Option.none => [.unk]
         | some (vals, []) => [rebuild shape vals]
         | some (vals, x :: errs) =>
           if !isValue recover then [.unk]
           else if !truthy recover then [.err x]
-          else bindL (evalList rec [cls, recover]) fun
+          else bindL (evalList (recC c) [cls, recover]) fun
             | [cv, rv] =>
               match allMatch lib cv (x :: errs) with
               | .bad => [.unk]
               | .no y => [.err y]
               | .yes =>
                 match rebuild shape vals with
-                | .ok nv => thenEval rec (applyCallable lib rv [nv] [] [])
+                | .ok nv => thenEval (recC c) (applyCallable lib rv [nv] [] [])
                 | o => [o]
             | _ => [.unk]
   | .map_ f values =>
     let (tasks, vals) := mapFuse [f] values
-    bindO (rec (mapTask tasks)) fun av =>
+    bindO ((recC c) (mapTask tasks)) fun av =>
       match rawSeq vals with
-      | some items => thenEval rec (mapCalls lib av items)
+      | some items => thenEval (recC c) (mapCalls lib av items)
       | Option.none =>
-        bindO (rec vals) fun vv =>
+        bindO ((recC c) vals) fun vv =>
           match iterOf vv with
-          | .ok (.cont .list items) => thenEval rec (mapCalls lib av items)
+          | .ok (.cont .list items) => thenEval (recC c) (mapCalls lib av items)
           | .ok _ => [.unk]
           | o => [o]
   | .applyTags v tags jtags etags =>
-    bindL (evalList rec [v, tags, jtags, etags]) fun
+    bindL (evalList (recC c) [v, tags, jtags, etags]) fun
       | [vv, tv, jv, ev] => if isListVal tv && isListVal jv && isListVal ev then [.ok vv] else [.unk]
       | _ => [.unk]
   | .fork e => [.ok (.threadv e)]
   | .join th =>
     match th with
-    | .threadv e => rec e
+    | .threadv e => (recC c) e
     | _ => [.unk]
-  | .subrun e _ =>
-    (rec e).flatMap fun
+  | .subrun e ne =>
+    -- `run_config["context"]` = the calling job's context; a new execution starts from config context + that context,
+    -- an extended one from a dummy parent job whose only override is that context
+    let inner : Ctx := if ne then lib.config.over c else Ctx.empty.over c
+    (recC inner e).flatMap fun
       | .ok v =>
-        bindO (rec (.dict [.str "result"] [v])) fun
+        bindO ((recC c) (.dict [.str "result"] [v])) fun
           | .dict [_] [v'] => [.ok v']
           | _ => [.unk]
       | .err x => [.err x]
       | .unk => [.unk]
-  | .settle e => (rec e).map settleOut
+  | .getCtx key dflt =>
+    if key.toList.contains '.' || !isValue dflt then [.unk]
+    else match c key with
+      | some v => if isValue v then [.ok v] else [.unk]
+      | Option.none => [.ok dflt]
+  | .settle e => ((recC c) e).map settleOut
 
 /-- all admissible outcomes of `e` found with `n` layers of fuel (`unk` = fuel ran out / not modelled) -/
-def evalAll (lib : Lib) : Nat → Expr → Outs
-  | 0, _ => [.unk]
-  | n + 1, e => step lib (evalAll lib n) e
+def evalAll (lib : Lib) : Nat → Ctx → Expr → Outs
+  | 0, _, _ => [.unk]
+  | n + 1, c, e => step lib (evalAll lib n) c e
 
 /-- the outcome of `e`, when the model determines exactly one -/
-def evalFuel (lib : Lib) (n : Nat) (e : Expr) : Option Out :=
-  match evalAll lib n e with
+def evalFuel (lib : Lib) (n : Nat) (c : Ctx) (e : Expr) : Option Out :=
+  match evalAll lib n c e with
   | [.ok v] => some (.ok v)
   | [.err x] => some (.err x)
   | _ => Option.none
 
 /-! ## The reduction rules as a big-step relation -/
 
-inductive Eval (lib : Lib) : Expr → Out → Prop
+set_option autoImplicit true in
+inductive Eval (lib : Lib) : Ctx → Expr → Out → Prop
   -- concrete values evaluate to themselves
-  | leaf {e} : isLeaf e = true → Eval lib e (.ok e)
-  | vexpr {v} : isValue v = true → Eval lib (.vexpr v) (.ok v)
+  | leaf {e} : isLeaf e = true → Eval lib cx e (.ok e)
+  | vexpr {v} : isValue v = true → Eval lib cx (.vexpr v) (.ok v)
   -- eval([a, b, ...]) => [eval(a), eval(b), ...]; a rejected term rejects the whole (any of them may win)
-  | nil : Eval lib (L []) (.ok (L []))
-  | cons {e es v vs} : Eval lib e (.ok v) → Eval lib (L es) (.ok (L vs)) → Eval lib (L (e :: es)) (.ok (L (v :: vs)))
-  | consErrHd {e es x} : Eval lib e (.err x) → Eval lib (L (e :: es)) (.err x)
-  | consErrTl {e es x} : Eval lib (L es) (.err x) → Eval lib (L (e :: es)) (.err x)
+  | nil : Eval lib cx (L []) (.ok (L []))
+  | cons {e es v vs} : Eval lib cx e (.ok v) → Eval lib cx (L es) (.ok (L vs)) → Eval lib cx (L (e :: es)) (.ok (L (v :: vs)))
+  | consErrHd {e es x} : Eval lib cx e (.err x) → Eval lib cx (L (e :: es)) (.err x)
+  | consErrTl {e es x} : Eval lib cx (L es) (.err x) → Eval lib cx (L (e :: es)) (.err x)
   -- tuples, sets, named tuples, dataclasses, dicts
-  | cont {k es vs} : k ≠ .list → Eval lib (L es) (.ok (L vs)) → contOk k vs = true →
-      Eval lib (.cont k es) (.ok (.cont k vs))
-  | contErr {k es x} : k ≠ .list → Eval lib (L es) (.err x) → Eval lib (.cont k es) (.err x)
-  | dict {ks vs all} : Eval lib (L (ks ++ vs)) (.ok (L all)) → keysOk (all.take ks.length) = true →
-      Eval lib (.dict ks vs) (.ok (.dict (all.take ks.length) (all.drop ks.length)))
-  | dictErr {ks vs x} : Eval lib (L (ks ++ vs)) (.err x) → Eval lib (.dict ks vs) (.err x)
+  | cont {k es vs} : k ≠ .list → Eval lib cx (L es) (.ok (L vs)) → contOk k vs = true →
+      Eval lib cx (.cont k es) (.ok (.cont k vs))
+  | contErr {k es x} : k ≠ .list → Eval lib cx (L es) (.err x) → Eval lib cx (.cont k es) (.err x)
+  | dict {ks vs all} : Eval lib cx (L (ks ++ vs)) (.ok (L all)) → keysOk (all.take ks.length) = true →
+      Eval lib cx (.dict ks vs) (.ok (.dict (all.take ks.length) (all.drop ks.length)))
+  | dictErr {ks vs x} : Eval lib cx (L (ks ++ vs)) (.err x) → Eval lib cx (.dict ks vs) (.err x)
   -- TaskExpression: arguments, keyword arguments and unspecified defaults are evaluated jointly, then the
   -- body runs, then its result is evaluated
-  | call {t args kwn kwv td all e' r} : lib.task t = some td →
-      Eval lib (L (args ++ kwv ++ (argDefaults td.params args.length kwn).map Prod.snd)) (.ok (L all)) →
-      td.body (all.take args.length) ((argDefaults td.params args.length kwn).map Prod.fst ++ kwn)
-        (all.drop (args.length + kwv.length) ++ (all.drop args.length).take kwv.length) = .ok e' →
-      Eval lib e' r → Eval lib (.call t args kwn kwv) r
-  | callRaise {t args kwn kwv td all x} : lib.task t = some td →
-      Eval lib (L (args ++ kwv ++ (argDefaults td.params args.length kwn).map Prod.snd)) (.ok (L all)) →
-      td.body (all.take args.length) ((argDefaults td.params args.length kwn).map Prod.fst ++ kwn)
-        (all.drop (args.length + kwv.length) ++ (all.drop args.length).take kwv.length) = .err x →
-      Eval lib (.call t args kwn kwv) (.err x)
-  | callArgErr {t args kwn kwv td x} : lib.task t = some td →
-      Eval lib (L (args ++ kwv ++ (argDefaults td.params args.length kwn).map Prod.snd)) (.err x) →
-      Eval lib (.call t args kwn kwv) (.err x)
+  | call {t args kwn kwv ovn ovv td akv dvs e' r} : lib.task t = some td →
+      Eval lib cx (L (args ++ kwv)) (.ok (L akv)) →
+      Eval lib (cx.override ovn ovv) (L ((argDefaults td.params args.length kwn).map Prod.snd)) (.ok (L dvs)) →
+      td.body (akv.take args.length) ((argDefaults td.params args.length kwn).map Prod.fst ++ kwn)
+        (dvs ++ akv.drop args.length) = .ok e' →
+      Eval lib (cx.override ovn ovv) e' r → Eval lib cx (.call t args kwn kwv ovn ovv) r
+  | callRaise {t args kwn kwv ovn ovv td akv dvs x} : lib.task t = some td →
+      Eval lib cx (L (args ++ kwv)) (.ok (L akv)) →
+      Eval lib (cx.override ovn ovv) (L ((argDefaults td.params args.length kwn).map Prod.snd)) (.ok (L dvs)) →
+      td.body (akv.take args.length) ((argDefaults td.params args.length kwn).map Prod.fst ++ kwn)
+        (dvs ++ akv.drop args.length) = .err x →
+      Eval lib cx (.call t args kwn kwv ovn ovv) (.err x)
+  | callArgErr {t args kwn kwv ovn ovv td x} : lib.task t = some td →
+      Eval lib cx (L (args ++ kwv)) (.err x) → Eval lib cx (.call t args kwn kwv ovn ovv) (.err x)
+  | callDefaultErr {t args kwn kwv ovn ovv td x} : lib.task t = some td →
+      Eval lib (cx.override ovn ovv) (L ((argDefaults td.params args.length kwn).map Prod.snd)) (.err x) →
+      Eval lib cx (.call t args kwn kwv ovn ovv) (.err x)
   -- SimpleExpression: evaluate the arguments, apply the operator, evaluate its result
-  | op {name args vs e' r} : Eval lib (L args) (.ok (L vs)) → applyOp lib name vs = .ok e' → Eval lib e' r →
-      Eval lib (.op name args) r
-  | opRaise {name args vs x} : Eval lib (L args) (.ok (L vs)) → applyOp lib name vs = .err x →
-      Eval lib (.op name args) (.err x)
-  | opArgErr {name args x} : Eval lib (L args) (.err x) → Eval lib (.op name args) (.err x)
+  | op {name args vs e' r} : Eval lib cx (L args) (.ok (L vs)) → applyOp lib name vs = .ok e' → Eval lib cx e' r →
+      Eval lib cx (.op name args) r
+  | opRaise {name args vs x} : Eval lib cx (L args) (.ok (L vs)) → applyOp lib name vs = .err x →
+      Eval lib cx (.op name args) (.err x)
+  | opArgErr {name args x} : Eval lib cx (L args) (.err x) → Eval lib cx (.op name args) (.err x)
   -- cond
-  | condErr {c t rest x} : Eval lib c (.err x) → Eval lib (.cond (c :: t :: rest)) (.err x)
-  | condThen {c t rest cv r} : Eval lib c (.ok cv) → truthy cv = true → Eval lib t r →
-      Eval lib (.cond (c :: t :: rest)) r
-  | condElse {c t e cv r} : Eval lib c (.ok cv) → truthy cv = false → Eval lib e r →
-      Eval lib (.cond [c, t, e]) r
-  | condElif {c t c2 t2 rest cv r} : Eval lib c (.ok cv) → truthy cv = false →
-      Eval lib (.cond (c2 :: t2 :: rest)) r → Eval lib (.cond (c :: t :: c2 :: t2 :: rest)) r
-  | condNoElse {c t cv} : Eval lib c (.ok cv) → truthy cv = false →
-      Eval lib (.cond [c, t]) (.err ⟨"IndexError", "tuple index out of range"⟩)
+  | condErr {c t rest x} : Eval lib cx c (.err x) → Eval lib cx (.cond (c :: t :: rest)) (.err x)
+  | condThen {c t rest cv r} : Eval lib cx c (.ok cv) → truthy cv = true → Eval lib cx t r →
+      Eval lib cx (.cond (c :: t :: rest)) r
+  | condElse {c t e cv r} : Eval lib cx c (.ok cv) → truthy cv = false → Eval lib cx e r →
+      Eval lib cx (.cond [c, t, e]) r
+  | condElif {c t c2 t2 rest cv r} : Eval lib cx c (.ok cv) → truthy cv = false →
+      Eval lib cx (.cond (c2 :: t2 :: rest)) r → Eval lib cx (.cond (c :: t :: c2 :: t2 :: rest)) r
+  | condNoElse {c t cv} : Eval lib cx c (.ok cv) → truthy cv = false →
+      Eval lib cx (.cond [c, t]) (.err ⟨"IndexError", "tuple index out of range"⟩)
   -- seq: strictly left to right
-  | seqNil : Eval lib (.seq []) (.ok (L []))
-  | seqCons {e es v vs} : Eval lib e (.ok v) → Eval lib (.seq es) (.ok (L vs)) → Eval lib (.seq (e :: es)) (.ok (L (v :: vs)))
-  | seqErrHd {e es x} : Eval lib e (.err x) → Eval lib (.seq (e :: es)) (.err x)
-  | seqErrTl {e es v x} : Eval lib e (.ok v) → Eval lib (.seq es) (.err x) → Eval lib (.seq (e :: es)) (.err x)
+  | seqNil : Eval lib cx (.seq []) (.ok (L []))
+  | seqCons {e es v vs} : Eval lib cx e (.ok v) → Eval lib cx (.seq es) (.ok (L vs)) → Eval lib cx (.seq (e :: es)) (.ok (L (v :: vs)))
+  | seqErrHd {e es x} : Eval lib cx e (.err x) → Eval lib cx (.seq (e :: es)) (.err x)
+  | seqErrTl {e es v x} : Eval lib cx e (.ok v) → Eval lib cx (.seq es) (.err x) → Eval lib cx (.seq (e :: es)) (.err x)
   -- catch
-  | catchOk {e clss recs v} : Eval lib e (.ok v) → Eval lib (.catch e clss recs) (.ok v)
-  | catchMiss {e clss recs x} : Eval lib e (.err x) → firstMatch lib x clss recs = .miss →
-      Eval lib (.catch e clss recs) (.err x)
-  | catchHit {e clss recs x rc e' r} : Eval lib e (.err x) → firstMatch lib x clss recs = .hit rc →
-      applyCallable lib rc [.vexpr (.errv x)] [] [] = .ok e' → Eval lib e' r → Eval lib (.catch e clss recs) r
-  | catchHitRaise {e clss recs x rc y} : Eval lib e (.err x) → firstMatch lib x clss recs = .hit rc →
-      applyCallable lib rc [.vexpr (.errv x)] [] [] = .err y → Eval lib (.catch e clss recs) (.err y)
+  | catchOk {e clss recs v} : Eval lib cx e (.ok v) → Eval lib cx (.catch e clss recs) (.ok v)
+  | catchMiss {e clss recs x} : Eval lib cx e (.err x) → firstMatch lib x clss recs = .miss →
+      Eval lib cx (.catch e clss recs) (.err x)
+  | catchHit {e clss recs x rc e' r} : Eval lib cx e (.err x) → firstMatch lib x clss recs = .hit rc →
+      applyCallable lib rc [.vexpr (.errv x)] [] [] = .ok e' → Eval lib cx e' r → Eval lib cx (.catch e clss recs) r
+  | catchHitRaise {e clss recs x rc y} : Eval lib cx e (.err x) → firstMatch lib x clss recs = .hit rc →
+      applyCallable lib rc [.vexpr (.errv x)] [] [] = .err y → Eval lib cx (.catch e clss recs) (.err y)
   -- wait_promises: a term's outcome reified
-  | settleOk {e v} : Eval lib e (.ok v) → Eval lib (.settle e) (.ok (.cont .tuple [.bool true, v]))
-  | settleErr {e x} : Eval lib e (.err x) → Eval lib (.settle e) (.ok (.cont .tuple [.bool false, .errv x]))
+  | settleOk {e v} : Eval lib cx e (.ok v) → Eval lib cx (.settle e) (.ok (.cont .tuple [.bool true, v]))
+  | settleErr {e x} : Eval lib cx e (.err x) → Eval lib cx (.settle e) (.ok (.cont .tuple [.bool false, .errv x]))
   -- catch_all
   | catchAllOk {exprs cls recover shape items outs vals v} : termsOf exprs = some (shape, items) →
-      Eval lib (L (items.map .settle)) (.ok (L outs)) → unsettle outs = some (vals, []) →
-      rebuild shape vals = .ok v → Eval lib (.catchAll exprs cls recover) (.ok v)
+      Eval lib cx (L (items.map .settle)) (.ok (L outs)) → unsettle outs = some (vals, []) →
+      rebuild shape vals = .ok v → Eval lib cx (.catchAll exprs cls recover) (.ok v)
   | catchAllFirst {exprs cls recover shape items outs vals x errs} : termsOf exprs = some (shape, items) →
-      Eval lib (L (items.map .settle)) (.ok (L outs)) → unsettle outs = some (vals, x :: errs) →
-      isValue recover = true → truthy recover = false → Eval lib (.catchAll exprs cls recover) (.err x)
+      Eval lib cx (L (items.map .settle)) (.ok (L outs)) → unsettle outs = some (vals, x :: errs) →
+      isValue recover = true → truthy recover = false → Eval lib cx (.catchAll exprs cls recover) (.err x)
   | catchAllArgErr {exprs cls recover shape items outs vals x errs y} : termsOf exprs = some (shape, items) →
-      Eval lib (L (items.map .settle)) (.ok (L outs)) → unsettle outs = some (vals, x :: errs) →
-      isValue recover = true → truthy recover = true → Eval lib (L [cls, recover]) (.err y) →
-      Eval lib (.catchAll exprs cls recover) (.err y)
+      Eval lib cx (L (items.map .settle)) (.ok (L outs)) → unsettle outs = some (vals, x :: errs) →
+      isValue recover = true → truthy recover = true → Eval lib cx (L [cls, recover]) (.err y) →
+      Eval lib cx (.catchAll exprs cls recover) (.err y)
   | catchAllNoMatch {exprs cls recover shape items outs vals x errs cv rv y} : termsOf exprs = some (shape, items) →
-      Eval lib (L (items.map .settle)) (.ok (L outs)) → unsettle outs = some (vals, x :: errs) →
-      isValue recover = true → truthy recover = true → Eval lib (L [cls, recover]) (.ok (L [cv, rv])) →
-      allMatch lib cv (x :: errs) = .no y → Eval lib (.catchAll exprs cls recover) (.err y)
+      Eval lib cx (L (items.map .settle)) (.ok (L outs)) → unsettle outs = some (vals, x :: errs) →
+      isValue recover = true → truthy recover = true → Eval lib cx (L [cls, recover]) (.ok (L [cv, rv])) →
+      allMatch lib cv (x :: errs) = .no y → Eval lib cx (.catchAll exprs cls recover) (.err y)
   | catchAllRecover {exprs cls recover shape items outs vals x errs cv rv nv e' r} :
       termsOf exprs = some (shape, items) →
-      Eval lib (L (items.map .settle)) (.ok (L outs)) → unsettle outs = some (vals, x :: errs) →
-      isValue recover = true → truthy recover = true → Eval lib (L [cls, recover]) (.ok (L [cv, rv])) →
+      Eval lib cx (L (items.map .settle)) (.ok (L outs)) → unsettle outs = some (vals, x :: errs) →
+      isValue recover = true → truthy recover = true → Eval lib cx (L [cls, recover]) (.ok (L [cv, rv])) →
       allMatch lib cv (x :: errs) = .yes → rebuild shape vals = .ok nv →
-      applyCallable lib rv [nv] [] [] = .ok e' → Eval lib e' r → Eval lib (.catchAll exprs cls recover) r
+      applyCallable lib rv [nv] [] [] = .ok e' → Eval lib cx e' r → Eval lib cx (.catchAll exprs cls recover) r
   | catchAllRecoverRaise {exprs cls recover shape items outs vals x errs cv rv nv y} :
       termsOf exprs = some (shape, items) →
-      Eval lib (L (items.map .settle)) (.ok (L outs)) → unsettle outs = some (vals, x :: errs) →
-      isValue recover = true → truthy recover = true → Eval lib (L [cls, recover]) (.ok (L [cv, rv])) →
+      Eval lib cx (L (items.map .settle)) (.ok (L outs)) → unsettle outs = some (vals, x :: errs) →
+      isValue recover = true → truthy recover = true → Eval lib cx (L [cls, recover]) (.ok (L [cv, rv])) →
       allMatch lib cv (x :: errs) = .yes → rebuild shape vals = .ok nv →
-      applyCallable lib rv [nv] [] [] = .err y → Eval lib (.catchAll exprs cls recover) (.err y)
+      applyCallable lib rv [nv] [] [] = .err y → Eval lib cx (.catchAll exprs cls recover) (.err y)
   -- map_
-  | mapTaskErr {f values x} : Eval lib (mapTask (mapFuse [f] values).1) (.err x) → Eval lib (.map_ f values) (.err x)
-  | mapRaw {f values av items e' r} : Eval lib (mapTask (mapFuse [f] values).1) (.ok av) →
-      rawSeq (mapFuse [f] values).2 = some items → mapCalls lib av items = .ok e' → Eval lib e' r →
-      Eval lib (.map_ f values) r
-  | mapRawRaise {f values av items x} : Eval lib (mapTask (mapFuse [f] values).1) (.ok av) →
+  | mapTaskErr {f values x} : Eval lib cx (mapTask (mapFuse [f] values).1) (.err x) → Eval lib cx (.map_ f values) (.err x)
+  | mapRaw {f values av items e' r} : Eval lib cx (mapTask (mapFuse [f] values).1) (.ok av) →
+      rawSeq (mapFuse [f] values).2 = some items → mapCalls lib av items = .ok e' → Eval lib cx e' r →
+      Eval lib cx (.map_ f values) r
+  | mapRawRaise {f values av items x} : Eval lib cx (mapTask (mapFuse [f] values).1) (.ok av) →
       rawSeq (mapFuse [f] values).2 = some items → mapCalls lib av items = .err x →
-      Eval lib (.map_ f values) (.err x)
-  | mapValuesErr {f values av x} : Eval lib (mapTask (mapFuse [f] values).1) (.ok av) →
-      rawSeq (mapFuse [f] values).2 = Option.none → Eval lib (mapFuse [f] values).2 (.err x) →
-      Eval lib (.map_ f values) (.err x)
-  | mapNotIter {f values av vv x} : Eval lib (mapTask (mapFuse [f] values).1) (.ok av) →
-      rawSeq (mapFuse [f] values).2 = Option.none → Eval lib (mapFuse [f] values).2 (.ok vv) →
-      iterOf vv = .err x → Eval lib (.map_ f values) (.err x)
-  | mapEval {f values av vv items e' r} : Eval lib (mapTask (mapFuse [f] values).1) (.ok av) →
-      rawSeq (mapFuse [f] values).2 = Option.none → Eval lib (mapFuse [f] values).2 (.ok vv) →
-      iterOf vv = .ok (L items) → mapCalls lib av items = .ok e' → Eval lib e' r → Eval lib (.map_ f values) r
-  | mapEvalRaise {f values av vv items x} : Eval lib (mapTask (mapFuse [f] values).1) (.ok av) →
-      rawSeq (mapFuse [f] values).2 = Option.none → Eval lib (mapFuse [f] values).2 (.ok vv) →
-      iterOf vv = .ok (L items) → mapCalls lib av items = .err x → Eval lib (.map_ f values) (.err x)
+      Eval lib cx (.map_ f values) (.err x)
+  | mapValuesErr {f values av x} : Eval lib cx (mapTask (mapFuse [f] values).1) (.ok av) →
+      rawSeq (mapFuse [f] values).2 = Option.none → Eval lib cx (mapFuse [f] values).2 (.err x) →
+      Eval lib cx (.map_ f values) (.err x)
+  | mapNotIter {f values av vv x} : Eval lib cx (mapTask (mapFuse [f] values).1) (.ok av) →
+      rawSeq (mapFuse [f] values).2 = Option.none → Eval lib cx (mapFuse [f] values).2 (.ok vv) →
+      iterOf vv = .err x → Eval lib cx (.map_ f values) (.err x)
+  | mapEval {f values av vv items e' r} : Eval lib cx (mapTask (mapFuse [f] values).1) (.ok av) →
+      rawSeq (mapFuse [f] values).2 = Option.none → Eval lib cx (mapFuse [f] values).2 (.ok vv) →
+      iterOf vv = .ok (L items) → mapCalls lib av items = .ok e' → Eval lib cx e' r → Eval lib cx (.map_ f values) r
+  | mapEvalRaise {f values av vv items x} : Eval lib cx (mapTask (mapFuse [f] values).1) (.ok av) →
+      rawSeq (mapFuse [f] values).2 = Option.none → Eval lib cx (mapFuse [f] values).2 (.ok vv) →
+      iterOf vv = .ok (L items) → mapCalls lib av items = .err x → Eval lib cx (.map_ f values) (.err x)
   -- apply_tags returns its (evaluated) first argument
-  | applyTags {v tags jtags etags vv tv jv ev} : Eval lib (L [v, tags, jtags, etags]) (.ok (L [vv, tv, jv, ev])) →
+  | applyTags {v tags jtags etags vv tv jv ev} : Eval lib cx (L [v, tags, jtags, etags]) (.ok (L [vv, tv, jv, ev])) →
       isListVal tv = true → isListVal jv = true → isListVal ev = true →
-      Eval lib (.applyTags v tags jtags etags) (.ok vv)
-  | applyTagsErr {v tags jtags etags x} : Eval lib (L [v, tags, jtags, etags]) (.err x) →
-      Eval lib (.applyTags v tags jtags etags) (.err x)
+      Eval lib cx (.applyTags v tags jtags etags) (.ok vv)
+  | applyTagsErr {v tags jtags etags x} : Eval lib cx (L [v, tags, jtags, etags]) (.err x) →
+      Eval lib cx (.applyTags v tags jtags etags) (.err x)
   -- fork_thread returns a Thread at once, whatever becomes of `e`; join_thread is the thread's outcome
-  | fork {e} : Eval lib (.fork e) (.ok (.threadv e))
-  | join {e r} : Eval lib e r → Eval lib (.join (.threadv e)) r
+  | fork {e} : Eval lib cx (.fork e) (.ok (.threadv e))
+  | join {e r} : Eval lib cx e r → Eval lib cx (.join (.threadv e)) r
   -- subrun: the inner scheduler evaluates `e`; a value travels back inside the record `_subrun_root_task` returns,
   -- which the outer scheduler evaluates (as any task result) before `subrun.then` unwraps it; an error makes the
   -- `_subrun_root_task` job itself fail, for a new execution (`run` raises) and for an extended one alike
-  | subrunOk {e ne v k v'} : Eval lib e (.ok v) → Eval lib (.dict [.str "result"] [v]) (.ok (.dict [k] [v'])) →
-      Eval lib (.subrun e ne) (.ok v')
-  | subrunOkErr {e ne v x} : Eval lib e (.ok v) → Eval lib (.dict [.str "result"] [v]) (.err x) →
-      Eval lib (.subrun e ne) (.err x)
-  | subrunErr {e ne x} : Eval lib e (.err x) → Eval lib (.subrun e ne) (.err x)
+  | subrunOk {e ne v k v'} : Eval lib (if ne then lib.config.over cx else Ctx.empty.over cx) e (.ok v) →
+      Eval lib cx (.dict [.str "result"] [v]) (.ok (.dict [k] [v'])) → Eval lib cx (.subrun e ne) (.ok v')
+  | subrunOkErr {e ne v x} : Eval lib (if ne then lib.config.over cx else Ctx.empty.over cx) e (.ok v) →
+      Eval lib cx (.dict [.str "result"] [v]) (.err x) → Eval lib cx (.subrun e ne) (.err x)
+  | subrunErr {e ne x} : Eval lib (if ne then lib.config.over cx else Ctx.empty.over cx) e (.err x) →
+      Eval lib cx (.subrun e ne) (.err x)
+  -- get_context(var, default): the value in the current job's context, else the default
+  | getCtxHit {key dflt v} : key.toList.contains '.' = false → isValue dflt = true → cx key = some v → isValue v = true →
+      Eval lib cx (.getCtx key dflt) (.ok v)
+  | getCtxMiss {key dflt} : key.toList.contains '.' = false → isValue dflt = true → cx key = Option.none →
+      Eval lib cx (.getCtx key dflt) (.ok dflt)
 
 end RedunModel.EvalCore
